@@ -211,6 +211,7 @@ class Contract:
   variants = (None,)
   max_paths = 4000
   branch_timeout_ms = 4000   # feasibility checks at forks; `unknown` = explore
+  branch_mbqi = True         # False: fork feasibility checks run without model-based quantifier instantiation
   unknown_call_is_error = False
   expect_unreachable_return = False
   bounded = False        # True: a stated bound makes this a bounded stand-in
@@ -478,7 +479,8 @@ def run_contract(contract, xcheck=True, goal_timeout_ms=8000):
     rep.error = f'resolve: {e!r}'
     return rep
   ex = I.Explorer(max_paths=contract.max_paths, goal_timeout_ms=goal_timeout_ms,
-                  branch_timeout_ms=contract.branch_timeout_ms)
+                  branch_timeout_ms=contract.branch_timeout_ms,
+                  branch_mbqi=contract.branch_mbqi)
   ex.model_hook = model_from_z3
   policy = make_policy(contract, REGISTRY)
   ensures = contract.clauses('ensures_')
